@@ -10,20 +10,22 @@ from harness.util import guarded, first_failures
 
 ID = 'C01'
 LEVEL = 'proof'
-LEVEL_TEXT = ('Unbounded Lean theorems: the executable validity checker is sound for every code (checkValidFast = true '
-              'implies commutation, logical commutation, pairing table and GF(2) rank n-k, in the list model and via '
-              'Mathlib over ZMod 2); commutation+pairing force rank <= n-k for every code; every per-qubit '
-              'permutation of {X,Y,Z} (any deformation a class can return) preserves validity (C08). Instance '
-              'theorems: for all 16 exported classes every supported size up to the table bound (2-D: L<=6, 3-D: L<=4, '
-              'rectangular/cuboid included, n<=400) is a valid code, kernel-checked (decide +kernel) on tables that a '
-              'translator regenerates from /repo on every run, so the theorems are re-proved against the current '
-              'source; the table of every deformation map any class returns is regenerated and proved to consist of '
-              'permutations. Sizes beyond the table bound are evaluated natively with the same proved-sound checker.')
+LEVEL_TEXT = ('Unbounded Lean theorems: (a) ALL SIZES of the hand-modelled classes (Properties/C01<Class>.lean, currently '
+              'Toric2DCode L>=2, Planar2DCode and RotatedPlanar2DCode L>=1, more as they are merged): the assembled matrices '
+              'exist and satisfy ValidCodeL n k (commutation, logical commutation, pairing table, GF(2) rank n-k) for every '
+              'lattice size, with closed forms for n, k, stabilizers and get_deformation; (b) the executable validity checker '
+              'is sound for every code; commutation+pairing force rank <= n-k for every code; every per-qubit permutation of '
+              '{X,Y,Z} (any deformation a class can return) preserves validity (C08). Instance theorems for all 16 exported '
+              'classes: every supported size up to the table bound (2-D: L<=6, 3-D: L<=4, rectangular/cuboid included, n<=400) '
+              'is a valid code, kernel-checked (decide +kernel) on tables a translator regenerates from /repo on every run; the '
+              'table of every deformation map any class returns is regenerated and proved to consist of permutations. Sizes '
+              'beyond the table bound are evaluated natively with the same proved-sound checker. Hand models are tied to the '
+              'classes by index-order differential runs of every getter on many sizes.')
 LEVEL_NOTE = ('trusted: Lean kernel + standard axioms; the translator harness/regen_codes.py (evaluates the code\'s own '
-              'constructors and packs the matrices; rank certificates are untrusted, Lean checks them); for sizes '
-              'beyond the table bound the Lean compiler/runtime (native evaluation of the proved-sound checker, '
-              'labelled native_checked); all-sizes (unbounded in L) lattice theorems are not proved, instance theorems '
-              'are named ..._partial')
+              'constructors and packs the matrices; rank certificates are untrusted, Lean checks them); the correspondence '
+              'harness for the hand-written lattice models; for sizes beyond the table bound the Lean compiler/runtime (native '
+              'evaluation of the proved-sound checker, labelled native_checked); classes without a hand model are covered by the '
+              'bounded instance theorems only (named ..._partial)')
 TECHNIQUE = ('Lean 4 proof: checker soundness (unbounded) + kernel-checked instance theorems over tables regenerated '
              'from the source by a translator; native evaluation of the proved checker beyond the bound')
 TRUSTED = ['translator harness/regen_codes.py (packs code.stabilizer_matrix / logicals_x / logicals_z / d as emitted by '
